@@ -200,6 +200,20 @@ def answer (toks : List String) : String :=
     match quantileAt l (rateK (rat! rr) l.length) with
     | none => "raise:IndexError"
     | some t => showV t
+  | ["adaptsn", net, m, e, k, ord, sn, ts] =>
+    -- round 5: adaptive plot / network with the neighbour table NumPy produced (ties in any
+    -- order); the table must be an argsort of the model's distance rows.
+    -- `net`: `p` plot, `0` RecurrenceNetwork constructor, `1` its setter
+    match stateVectors (vMat ts) (emb? e) with
+    | .ok emb =>
+      let table := natMat sn
+      if !argsortOK (distRP (metric? m) emb) table then "not-an-argsort" else
+      let r := adaptivePlotWith (metric? m) emb k.toNat! (if ord == "-" then none else some (nats ord))
+        table
+      if net == "p" then showRes showPlot r
+      else showRes showNet (r.bind fun p => .ok (networkOf p (rnStrideOf (net == "1") "a:" p.N)))
+    | .valueError => "raise:ValueError"
+    | .indexError => "raise:IndexError"
   | ["adaptive", n, k, sn, order] =>
     match adaptive n.toNat! k.toNat! (natMat sn) (nats order) with
     | none => "raise:IndexError"
